@@ -1026,3 +1026,248 @@ Proof.
       rewrite <- ops_eff_path. unfold parse_endchar.
       destruct (first_move (fst (fst (ops_eff (o :: r) pst0 0)))); reflexivity.
 Qed.
+
+(* --- CFF2: operators only; the end of the charstring closes the open contour --- *)
+Theorem interp_spec_cff2 : forall e ops body fd subrs,
+  e_kind e = KCFF2 ->
+  glyph_fd e = Some fd -> nth_opt (e_fds e) fd = Some subrs ->
+  nth_opt (e_glyphs e) (e_gid e) = Some body ->
+  enc_ops ops body -> prog_wf CFF2_MAX_OPERANDS None ops ->
+  exists s, interp_glyph e = COk s /\ out s = prog_path ops.
+Proof.
+  intros e ops body fd subrs Hk Hfd Hsub Hg Hops (Hwf & _).
+  assert (Hmax : max_stack e = CFF2_MAX_OPERANDS) by (unfold max_stack; rewrite Hk; reflexivity).
+  assert (Ht : max_stack e <= TEMP_OPERANDS) by (rewrite Hmax; vm_compute; congruence).
+  unfold interp_glyph. rewrite Hk, Hfd, Hsub, Hg. unfold DEPTH_FUEL, ist0.
+  rewrite (run_app_end 11 e 0 body).
+  rewrite (run_ops ops body Hops) by (rewrite ?Hmax; cbn [pst0 has_move]; (assumption || lia)).
+  rewrite run_nil. cbn [cbind ps].
+  rewrite <- ops_eff_path.
+  destruct (first_move (fst (fst (ops_eff ops pst0 0)))) eqn:E.
+  - eexists; split; [reflexivity|]. cbn [out app]. rewrite app_nil_r. reflexivity.
+  - eexists; split; [reflexivity|]. unfold set_ps. cbn [out app ps]. reflexivity.
+Qed.
+
+(* what OutlineBuilder::visit returns *)
+Corollary run_glyph_spec_cff : forall e w ops wb body,
+  e_kind e = KCFF ->
+  nth_opt (e_glyphs e) (e_gid e) = Some (wb ++ body ++ [14]) ->
+  enc_width w wb -> enc_ops ops body -> prog_wf CFF_MAX_OPERANDS w ops ->
+  run_glyph e = if bbox_ok (prog_path ops) then COk (prog_path ops) else CErr EBboxOverflow.
+Proof.
+  intros e w ops wb body Hk Hg Hw Hops Hwf.
+  destruct (interp_spec_cff e w ops wb body Hk Hg Hw Hops Hwf) as (s & Hs & Ho).
+  unfold run_glyph. rewrite Hs. cbn [cbind]. rewrite Ho. reflexivity.
+Qed.
+
+Corollary run_glyph_spec_cff2 : forall e ops body fd subrs,
+  e_kind e = KCFF2 ->
+  glyph_fd e = Some fd -> nth_opt (e_fds e) fd = Some subrs ->
+  nth_opt (e_glyphs e) (e_gid e) = Some body ->
+  enc_ops ops body -> prog_wf CFF2_MAX_OPERANDS None ops ->
+  run_glyph e = if bbox_ok (prog_path ops) then COk (prog_path ops) else CErr EBboxOverflow.
+Proof.
+  intros e ops body fd subrs Hk Hfd Hsub Hg Hops Hwf.
+  destruct (interp_spec_cff2 e ops body fd subrs Hk Hfd Hsub Hg Hops Hwf) as (s & Hs & Ho).
+  unfold run_glyph. rewrite Hs. cbn [cbind]. rewrite Ho. reflexivity.
+Qed.
+
+(* ================================================================== *)
+(* 6. Consequences: the path does not depend on how it is written     *)
+(* ================================================================== *)
+
+(* Two well-formed programs with the same primitives -- whatever operators, number encodings,
+   hints, masks and width they use -- give the same outline. *)
+Theorem equivalent_programs_cff : forall e1 e2 w1 w2 ops1 ops2 wb1 wb2 body1 body2,
+  e_kind e1 = KCFF -> e_kind e2 = KCFF ->
+  nth_opt (e_glyphs e1) (e_gid e1) = Some (wb1 ++ body1 ++ [14]) ->
+  nth_opt (e_glyphs e2) (e_gid e2) = Some (wb2 ++ body2 ++ [14]) ->
+  enc_width w1 wb1 -> enc_width w2 wb2 -> enc_ops ops1 body1 -> enc_ops ops2 body2 ->
+  prog_wf CFF_MAX_OPERANDS w1 ops1 -> prog_wf CFF_MAX_OPERANDS w2 ops2 ->
+  flat_map expand ops1 = flat_map expand ops2 ->
+  run_glyph e1 = run_glyph e2.
+Proof.
+  intros. rewrite (run_glyph_spec_cff e1 w1 ops1 wb1 body1) by assumption.
+  rewrite (run_glyph_spec_cff e2 w2 ops2 wb2 body2) by assumption.
+  unfold prog_path.
+  match goal with H : flat_map expand _ = flat_map expand _ |- _ => rewrite H end. reflexivity.
+Qed.
+
+(* hints, masks and the width draw nothing *)
+Lemma expand_hint : forall o, is_hint o = true -> expand o = [].
+Proof. destruct o; intros H; try discriminate H; reflexivity. Qed.
+
+Lemma flat_map_expand_filter : forall ops,
+  flat_map expand (filter (fun o => negb (is_hint o)) ops) = flat_map expand ops.
+Proof.
+  induction ops as [|o r IH]; [reflexivity|]. cbn [filter flat_map].
+  destruct (is_hint o) eqn:E; cbn [negb].
+  - rewrite expand_hint by exact E. exact IH.
+  - cbn [flat_map]. rewrite IH. reflexivity.
+Qed.
+
+Theorem hints_draw_nothing : forall ops,
+  prog_path (filter (fun o => negb (is_hint o)) ops) = prog_path ops.
+Proof. intros. unfold prog_path. rewrite flat_map_expand_filter. reflexivity. Qed.
+
+(* ================================================================== *)
+(* 7. One closed contour per moveto                                   *)
+(* ================================================================== *)
+
+Definition is_pmove (p : prim) : bool := match p with PMove _ _ => true | _ => false end.
+
+(* no segment before the first moveto *)
+Fixpoint prims_ok (moved : bool) (ps : list prim) : bool :=
+  match ps with
+  | [] => true
+  | p :: r => (is_pmove p || moved) && prims_ok (is_pmove p || moved) r
+  end.
+
+Lemma path_contours : forall ps x y o,
+  prims_ok o ps = true ->
+  let '(_, _, o', c) := run_prims x y o ps in
+  contours_ok o (c ++ (if o' then [Close] else [])) = true.
+Proof.
+  induction ps as [|p r IH]; intros x y o Hok.
+  - cbn [run_prims app]. destruct o; reflexivity.
+  - cbn [prims_ok] in Hok. apply andb_prop in Hok. destruct Hok as [H1 H2].
+    destruct p as [dx dy|dx dy|a b c d e f]; cbn [is_pmove orb] in H1, H2; cbn [run_prims].
+    + specialize (IH (x + dx) (y + dy) true H2).
+      destruct (run_prims (x + dx) (y + dy) true r) as [[[xf yf] o'] c].
+      destruct o; cbn [app contours_ok negb andb]; exact IH.
+    + subst o. specialize (IH (x + dx) (y + dy) true H2).
+      destruct (run_prims (x + dx) (y + dy) true r) as [[[xf yf] o'] c].
+      cbn [app contours_ok andb]. exact IH.
+    + subst o. specialize (IH (x + a + c + e) (y + b + d + f) true H2).
+      destruct (run_prims (x + a + c + e) (y + b + d + f) true r) as [[[xf yf] o'] cs].
+      cbn [app contours_ok andb]. exact IH.
+Qed.
+
+Lemma prims_ok_app : forall a b m,
+  prims_ok m (a ++ b) = prims_ok m a && prims_ok (existsb is_pmove a || m) b.
+Proof.
+  induction a as [|p a IH]; intros b m; [reflexivity|].
+  cbn [app prims_ok existsb]. rewrite IH.
+  destruct (is_pmove p), m, (existsb is_pmove a); cbn [orb andb];
+    try reflexivity; try (destruct (prims_ok true a); reflexivity).
+Qed.
+
+Lemma prims_ok_nomove : forall ps, existsb is_pmove ps = false -> prims_ok true ps = true.
+Proof.
+  induction ps as [|p r IH]; [reflexivity|]. cbn [existsb prims_ok]. intros H.
+  apply orb_false_elim in H. destruct H as [H1 H2]. rewrite H1. cbn [orb andb]. apply IH, H2.
+Qed.
+
+Lemma nomove_map {A} (f : A -> prim) (l : list A) :
+  (forall a, is_pmove (f a) = false) -> existsb is_pmove (map f l) = false.
+Proof. intros H. induction l as [|a l IH]; [reflexivity|]. cbn [map existsb]. rewrite H, IH. reflexivity. Qed.
+
+Lemma nomove_alt : forall l h, existsb is_pmove (alt_prims h l) = false.
+Proof. induction l as [|d l IH]; intros h; [reflexivity|]. cbn [alt_prims existsb]. rewrite IH. destruct h; reflexivity. Qed.
+
+Lemma nomove_hv : forall l last h, existsb is_pmove (hv_prims h l last) = false.
+Proof.
+  induction l as [|[[[a b] c] d] l IH]; intros last h; [reflexivity|].
+  cbn [hv_prims existsb]. rewrite IH. destruct h; reflexivity.
+Qed.
+
+Lemma nomove_segment : forall o, is_move o = false -> existsb is_pmove (expand o) = false.
+Proof.
+  destruct o; intros Hm; try discriminate Hm; cbn [expand]; try reflexivity.
+  - apply nomove_map. reflexivity.
+  - apply nomove_alt.
+  - apply nomove_alt.
+  - apply nomove_map. intros [[[[[a b] c] d] e] f]. reflexivity.
+  - destruct l as [|[[[a b] c] d] l]; [reflexivity|]. cbn [first_rest existsb hh_prim is_pmove orb].
+    apply nomove_map. intros [[[a' b'] c'] d']. reflexivity.
+  - destruct l as [|[[[a b] c] d] l]; [reflexivity|]. cbn [first_rest existsb vv_prim is_pmove orb].
+    apply nomove_map. intros [[[a' b'] c'] d']. reflexivity.
+  - apply nomove_hv.
+  - apply nomove_hv.
+  - rewrite existsb_app. rewrite nomove_map by (intros [[[[[a b] c] d] e] f]; reflexivity). reflexivity.
+  - rewrite existsb_app. rewrite nomove_map by reflexivity.
+    destruct c as [[[[[a b] c] d] e] f]. reflexivity.
+  - destruct c1 as [[[[[a b] c] d] e] f]. destruct c2 as [[[[[a' b'] c'] d'] e'] f']. reflexivity.
+  - destruct (Z.abs _ <? Z.abs _); reflexivity.
+Qed.
+
+Lemma ops_prims_ok : forall ops maxargs moved n,
+  ops_wf maxargs moved n ops -> prims_ok moved (flat_map expand ops) = true.
+Proof.
+  induction ops as [|o r IH]; intros maxargs moved n Hwf; [reflexivity|].
+  destruct Hwf as (_ & _ & Hm & _ & _ & Hwf'). cbn [flat_map]. rewrite prims_ok_app.
+  specialize (IH _ _ _ Hwf').
+  destruct (is_move o) eqn:Emv.
+  - (* a moveto *)
+    assert (He : exists dx dy, expand o = [PMove dx dy]).
+    { destruct o; try discriminate Emv; cbn [expand]; eauto. }
+    destruct He as (dx & dy & ->). cbn [prims_ok is_pmove existsb orb andb].
+    rewrite orb_true_r in IH. exact IH.
+  - rewrite (nomove_segment o Emv). cbn [orb]. rewrite orb_false_r in IH. rewrite IH, andb_true_r.
+    destruct (is_hint o) eqn:Eh.
+    + rewrite expand_hint by exact Eh. reflexivity.
+    + rewrite (Hm eq_refl eq_refl). apply prims_ok_nomove, nomove_segment, Emv.
+Qed.
+
+(* the path of a well-formed program: every contour is opened by one moveto and closed once *)
+Theorem one_closed_contour_per_move : forall maxargs w ops,
+  prog_wf maxargs w ops -> contours_ok false (prog_path ops) = true.
+Proof.
+  intros maxargs w ops (Hwf & _). unfold prog_path, path_of.
+  pose proof (path_contours (flat_map expand ops) 0 0 false (ops_prims_ok _ _ _ _ Hwf)) as H.
+  destruct (run_prims 0 0 false (flat_map expand ops)) as [[[x y] o] c]. exact H.
+Qed.
+
+Fixpoint count_cmd (f : cmd -> bool) (c : list cmd) : nat :=
+  match c with [] => O | x :: r => ((if f x then 1 else 0) + count_cmd f r)%nat end.
+Definition is_moveto (c : cmd) : bool := match c with MoveTo _ _ => true | _ => false end.
+Definition is_close (c : cmd) : bool := match c with Close => true | _ => false end.
+
+Lemma contours_count : forall c o, contours_ok o c = true ->
+  (count_cmd is_moveto c + (if o then 1 else 0) = count_cmd is_close c)%nat.
+Proof.
+  induction c as [|x r IH]; intros o H.
+  - destruct o; [discriminate H|reflexivity].
+  - destruct x; cbn [contours_ok] in H; apply andb_prop in H; destruct H as [H1 H2];
+      cbn [count_cmd is_moveto is_close]; specialize (IH _ H2); destruct o; cbn [negb] in H1;
+      try discriminate H1; cbn [Nat.add] in *; lia.
+Qed.
+
+Theorem closes_equal_moves : forall maxargs w ops, prog_wf maxargs w ops ->
+  count_cmd is_close (prog_path ops) = count_cmd is_moveto (prog_path ops).
+Proof.
+  intros maxargs w ops H.
+  pose proof (contours_count _ _ (one_closed_contour_per_move _ _ _ H)) as Hc.
+  cbv iota in Hc. lia.
+Qed.
+
+(* ================================================================== *)
+(* 8. Subroutine bias                                                 *)
+(* ================================================================== *)
+
+Lemma try_as_i32_int : forall k, I32_MIN <= k <= I32_MAX -> try_as_i32 (of_int k) = Some k.
+Proof.
+  intros k H. unfold try_as_i32, of_int, I32_MIN, I32_MAX, UNIT, SDEN in *.
+  destruct (_ <=? _) eqn:E1; [|lia]. destruct (_ <? _) eqn:E2; [|lia]. cbn [andb].
+  rewrite Z.quot_mul by lia. reflexivity.
+Qed.
+
+(* every subroutine of an INDEX with n entries is reachable: the biased operand of entry i decodes
+   back to i, and it fits the number forms the thresholds 1240 and 33900 were chosen for *)
+Theorem bias_reaches_every_subr : forall n i, 0 <= i < n -> n <= 65536 ->
+  let b := calc_subroutine_bias n in
+  conv_subroutine_index (of_int (i - b)) b = COk i /\
+  -32768 <= i - b <= 32767 /\
+  (n < 1240 -> b = 107 /\ -107 <= i - b <= 1131) /\
+  (1240 <= n < 33900 -> b = 1131 /\ -1131 <= i - b <= 32767) /\
+  (33900 <= n -> b = 32768).
+Proof.
+  intros n i Hi Hn b. subst b. unfold calc_subroutine_bias.
+  destruct (n <? 1240) eqn:E1; [|destruct (n <? 33900) eqn:E2];
+    (split; [unfold conv_subroutine_index; rewrite try_as_i32_int by (unfold I32_MIN, I32_MAX; lia);
+             unfold I32_MAX;
+             match goal with |- context [?a <? ?b] => destruct (a <? b) eqn:E3; [lia|] end;
+             match goal with |- context [?a <? 0] => destruct (a <? 0) eqn:E4; [lia|] end;
+             f_equal; lia
+            |repeat split; intros; lia]).
+Qed.
